@@ -52,7 +52,12 @@ func H_C03_message() {
 	bc := int(raw[33+2*wc]) | int(raw[34+2*wc])<<8
 	vCheck(len(raw) == 32+1+2*wc+2+bc, "C03/message/length-is-32+1+2*words+2+bytes")
 	vCheck(raw[4] == byte(code), "C03/message/header-command-is-the-command-code")
+	// the receiving message is reused: it already carries an earlier (different) command and header
 	d := NewMessage()
+	if prev, perr := commands.CreateRequestCommand(codes.SMB_COM_ECHO); perr == nil {
+		d.AddCommand(prev)
+		d.Header.MID = vU16("prev.mid")
+	}
 	err = d.Unmarshal(raw)
 	vCheck(err == nil, "C03/message/unmarshal-ok")
 	if err != nil {
